@@ -1,1 +1,47 @@
-fn main() { hlverif::hello(); }
+use hlverif::props;
+use hlverif::runner::Tier;
+
+fn usage() -> ! {
+	eprintln!("usage: hlv check <ID> [--tier quick|thorough] [--seed N]\n       hlv replay <file>");
+	std::process::exit(2)
+}
+
+fn main() {
+	let args: Vec<String> = std::env::args().collect();
+	let code = match args.get(1).map(|s| s.as_str()) {
+		Some("check") => {
+			let Some(id) = args.get(2) else { usage() };
+			let mut tier = match std::env::var("VERIF_TIER").ok().as_deref() {
+				Some("thorough") => Tier::Thorough,
+				_ => Tier::Quick,
+			};
+			let mut seed: u64 = std::env::var("VERIF_SEED").ok().and_then(|s| s.parse().ok()).unwrap_or(1);
+			let mut i = 3;
+			while i < args.len() {
+				match args[i].as_str() {
+					"--tier" => {
+						i += 1;
+						tier = match args.get(i).map(|s| s.as_str()) {
+							Some("thorough") => Tier::Thorough,
+							Some("quick") => Tier::Quick,
+							_ => usage(),
+						};
+					}
+					"--seed" => {
+						i += 1;
+						seed = args.get(i).and_then(|s| s.parse().ok()).unwrap_or_else(|| usage());
+					}
+					_ => usage(),
+				}
+				i += 1;
+			}
+			props::run_check(id, tier, seed)
+		}
+		Some("replay") => {
+			let Some(f) = args.get(2) else { usage() };
+			props::replay(f)
+		}
+		_ => usage(),
+	};
+	std::process::exit(code);
+}
